@@ -269,14 +269,15 @@ Qed.
 
 Lemma deliver_failed s t s' : deliver s t = (s', false) -> s' = s.
 Proof.
-  unfold deliver. destruct (run_op (t_env t) s (t_op t)) as [s1|]; [|by intros [= <-]].
+  unfold deliver. destruct (negb (validate t)); [by intros [= <-]|].
+  destruct (run_op (t_env t) s (t_op t)) as [s1|]; [|by intros [= <-]].
   destruct (fee_step s1 t); [discriminate|]. by intros [= <-].
 Qed.
 
 Lemma deliver_ok s t s' : deliver s t = (s', true) ->
   exists s1, run_op (t_env t) s (t_op t) = Some s1 /\ fee_step s1 t = Some s'.
 Proof.
-  unfold deliver. destruct (run_op (t_env t) s (t_op t)) as [s1|]; [|discriminate].
+  unfold deliver. destruct (negb (validate t)); [discriminate|]. destruct (run_op (t_env t) s (t_op t)) as [s1|]; [|discriminate].
   destruct (fee_step s1 t) as [s2|] eqn:Hf; [|discriminate]. intros [= <-]. by exists s1.
 Qed.
 
@@ -498,6 +499,135 @@ Proof.
     assert (0 <= (offer - o_base (e_opts e)) / o_perblock (e_opts e)) by (apply Z.div_pos; lia).
     set (k := (offer - o_base (e_opts e)) / o_perblock (e_opts e)) in *.
     unfold int64 in Hi. rewrite (wrap64_id k) by lia. apply wrap64_id. lia.
+Qed.
+
+(* ---- sale status: a listing is made only by the owner's own sell transaction ---- *)
+(* the listing of n in the new state (owner, on sale, asking price) was there before, for the same
+   owner at the same price, or the transaction is the owner's Sell of n at that price *)
+Definition listing_ok (s : state) (o : op) (n : name) (d' : domain) : Prop :=
+  (exists d, reg s !! n = Some d /\ d_onsale d = true /\ d_owner d = d_owner d' /\
+             d_price d = d_price d')
+  \/ (exists price, o = Sell (d_owner d') n price false /\ owns s (d_owner d') n /\
+                    d_price d' = Some price).
+
+Lemma listing_carried s o n d' : reg s !! n = Some d' -> d_onsale d' = true -> listing_ok s o n d'.
+Proof. intros H Ho. left. by exists d'. Qed.
+
+Lemma run_op_listing e s o s1 : run_op e s o = Some s1 ->
+  forall n d', reg s1 !! n = Some d' -> d_onsale d' = true -> listing_ok s o n d'.
+Proof.
+  intros H n d' Hn Hon.
+  destruct o as [a b n0 uo u p|a b n0 act uo u|a n0 p c|a b n0 p|a n0 p|a n0 p|a n0]; simpl in H.
+  - unfold run_create in H.
+    destruct (p <=? o_base (e_opts e)); [discriminate|].
+    destruct (bool_decide (is_Some (reg s !! n0))); [discriminate|].
+    destruct (debit (bal s) a p); [|discriminate].
+    destruct (negb (name_valid (e_opts e) n0)); [discriminate|].
+    destruct (negb (u =? "")%string && negb uo); [discriminate|].
+    match type of H with match ?X with _ => _ end = _ => destruct X as [x|]; [|discriminate] end.
+    injection H as <-. simpl in Hn. destruct (decide (n = n0)) as [->|Hne].
+    + rewrite lookup_insert in Hn. injection Hn as <-. discriminate.
+    + rewrite lookup_insert_ne in Hn by done. by apply listing_carried.
+  - unfold run_update in H.
+    destruct (reg s !! n0) as [d|] eqn:Hd; [|discriminate].
+    destruct (negb (is_changeable d (e_h e))); [discriminate|].
+    destruct (negb (bool_decide (d_owner d = a))); [discriminate|].
+    destruct (negb (u =? "")%string && negb uo); [discriminate|].
+    injection H as <-. simpl in Hn. destruct (decide (n = n0)) as [->|Hne].
+    + rewrite lookup_insert in Hn. injection Hn as <-. simpl in Hon. left. by exists d.
+    + rewrite lookup_insert_ne in Hn by done.
+      destruct (negb act && negb (is_sub n0)); [|by apply listing_carried].
+      rewrite lookup_map_subs in Hn. destruct (visited s n0 n); [|by apply listing_carried].
+      destruct (reg s !! n) as [dn|] eqn:Hdn; [|discriminate]. injection Hn as <-.
+      left. by exists dn.
+  - unfold run_sell in H.
+    destruct (p <=? o_perblock (e_opts e)); [discriminate|].
+    destruct (p <? 0); [discriminate|]. destruct (is_sub n0); [discriminate|].
+    destruct (reg s !! n0) as [d|] eqn:Hd; [|discriminate].
+    destruct (negb (bool_decide (d_owner d = a))) eqn:Ho; [discriminate|]. owner_eq Ho.
+    destruct (negb (is_changeable d (e_h e))); [discriminate|].
+    destruct (is_expired d (e_h e)); [discriminate|].
+    injection H as <-. simpl in Hn. destruct (decide (n = n0)) as [->|Hne].
+    + rewrite lookup_insert in Hn. injection Hn as <-. destruct c; [discriminate|].
+      right. exists p. simpl. rewrite Ho. repeat split; try done. by exists d.
+    + rewrite lookup_insert_ne in Hn by done. by apply listing_carried.
+  - unfold run_purchase in H.
+    destruct (reg s !! n0) as [d|] eqn:Hd; [|discriminate].
+    destruct (negb (d_onsale d) && (e_v e <=? d_expiry d)); [discriminate|].
+    destruct (is_sub n0); [discriminate|].
+    assert (forall d0 : domain, d_onsale d0 = false ->
+      (<[n0:=d0]> (delete_subs s n0) : gmap name domain) !! n = Some d' -> listing_ok s (Purchase a b n0 p) n d') as Hg.
+    { intros d0 Hoff Hl. destruct (decide (n = n0)) as [->|Hne].
+      - rewrite lookup_insert in Hl. injection Hl as <-. congruence.
+      - rewrite lookup_insert_ne in Hl by done. rewrite lookup_delete_subs in Hl.
+        destruct (visited s n0 n); [discriminate|]. by apply listing_carried. }
+    repeat (match type of H with
+            | match ?X with _ => _ end = _ => destruct X eqn:?; try discriminate
+            | (if ?X then _ else _) = _ => destruct X eqn:?; try discriminate
+            end).
+    all: injection H as <-; simpl in Hn; eapply Hg; [|exact Hn]; reflexivity.
+  - apply send_changes in H as (Hr & _). rewrite Hr in Hn. by apply listing_carried.
+  - unfold run_renew in H.
+    destruct (p <=? o_perblock (e_opts e)); [discriminate|].
+    destruct (is_sub n0); [discriminate|].
+    destruct (reg s !! n0) as [d|] eqn:Hd; [|discriminate].
+    destruct (negb (is_changeable d (e_h e))); [discriminate|].
+    destruct (is_expired d (e_v e)); [discriminate|].
+    destruct (negb (bool_decide (d_owner d = a))); [discriminate|].
+    destruct (debit (bal s) a p); [|discriminate].
+    injection H as <-. simpl in Hn. destruct (decide (n = n0)) as [->|Hne].
+    + rewrite lookup_insert in Hn. injection Hn as <-. simpl in Hon. left. by exists d.
+    + rewrite lookup_insert_ne in Hn by done. rewrite lookup_map_subs in Hn.
+      destruct (visited s n0 n); [|by apply listing_carried].
+      destruct (reg s !! n) as [dn|] eqn:Hdn; [|discriminate]. injection Hn as <-.
+      left. by exists dn.
+  - unfold run_deletesub in H.
+    destruct (reg s !! (if is_sub n0 then parent_name n0 else n0)) as [p|]; [|discriminate].
+    destruct (negb (is_changeable p (e_h e))); [discriminate|].
+    destruct (negb (bool_decide (d_owner p = a))); [discriminate|].
+    destruct (is_sub n0).
+    + destruct (reg s !! n0); [|discriminate]. injection H as <-. simpl in Hn.
+      destruct (decide (n = n0)) as [->|Hne]; [by rewrite lookup_delete in Hn|].
+      rewrite lookup_delete_ne in Hn by done. by apply listing_carried.
+    + injection H as <-. simpl in Hn. rewrite lookup_delete_subs in Hn.
+      destruct (visited s n0 n); [discriminate|]. by apply listing_carried.
+Qed.
+
+Theorem listing_authored s t : forall n d',
+  reg (deliver s t).1 !! n = Some d' -> d_onsale d' = true -> listing_ok s (t_op t) n d'.
+Proof.
+  intros n d' Hn Hon. destruct (deliver s t) as [s' ok] eqn:H. simpl in Hn.
+  destruct ok; [|apply deliver_failed in H; subst; by apply listing_carried].
+  apply deliver_ok in H as (s1 & Hop & Hfee).
+  apply fee_step_spec in Hfee as (f & _ & Hreg & _). rewrite Hreg in Hn.
+  by eapply run_op_listing.
+Qed.
+
+(* hence, over histories from the empty registry: whoever owns a name that is on sale has signed
+   a sell transaction for it at that price while owning it *)
+Fixpoint listed_by (s : state) (evs : list event) (n : name) (a : addr) (q : option Z) : Prop :=
+  match evs with
+  | [] => False
+  | Tx t :: rest =>
+      (exists price, t_op t = Sell a n price false /\ owns s a n /\ q = Some price)
+      \/ listed_by (deliver s t).1 rest n a q
+  | EndBlock :: rest => listed_by (end_block s) rest n a q
+  end.
+
+Theorem history_listing_authored evs : forall s n d',
+  reg (run s evs) !! n = Some d' -> d_onsale d' = true ->
+  (exists d, reg s !! n = Some d /\ d_onsale d = true /\ d_owner d = d_owner d' /\ d_price d = d_price d')
+  \/ listed_by s evs n (d_owner d') (d_price d').
+Proof.
+  intros s n d' Hn Hon. revert s Hn.
+  induction evs as [|ev evs IH]; intros s Hn; simpl in *.
+  - left. by exists d'.
+  - destruct ev as [t|]; simpl in *.
+    + destruct (IH _ Hn) as [(d & Hd & Hdon & Hdo & Hdp)|Hl]; [|by right; right].
+      destruct (listing_authored s t n d Hd Hdon) as [(d0 & H0 & H0on & H0o & H0p)|(price & Ht & Hown & Hp)].
+      * left. exists d0. repeat split; congruence.
+      * right. left. exists price. rewrite <- Hdo, <- Hdp. by repeat split.
+    + destruct (IH _ Hn) as [Hl|Hl]; [by left|by right].
 Qed.
 
 (* ---- the _partial forms, guarded by the boolean triggers of OnsCheck.v ---- *)
